@@ -263,6 +263,22 @@ CLAIMED["C11"] = dict(
     technique="Coq proof (two semantics related through build) + vm_compute correspondence on generated source programs",
     design="4/C11")
 
+CLAIMED["C12"] = dict(
+    text=("Gallina model of the core of the code generators (Codegen.gen: nodes held by two slots become variables in "
+          "post-order, everything else is emitted inline, Buildables as constructor calls with int-keyed arguments "
+          "positionally and named ones as keywords) producing a Lang.program; theorem: running the generated program "
+          "under the configuration semantics rebuilds a heap isomorphic (sharing included, up to the storage order of "
+          "arguments) to the input. The text emitted by the real new_codegen / auto_config_codegen is parsed back by a "
+          "fail-closed translator into a Lang.program and checked inside Coq to rebuild the input; separately every "
+          "emitted module (both generators x sub-fixture subsets x complexity thresholds x history on/off) is "
+          "compiled, imported and its fixture compared with the input; py_val_to_cst_converter expressions are "
+          "evaluated and compared by value and type."),
+    note=COMMON_NOTE + " libcst printing, naming, import management, sub-fixture extraction, complexity splitting and "
+         "history comments are exercised by executing the emitted module, not modelled. Known findings: tags in "
+         "new_codegen, several tags on one argument, sharing lost through sub-fixtures.",
+    technique="Coq proof (generated program rebuilds the heap) + emitted text parsed back and evaluated in Coq + execution oracle",
+    design="4/C12")
+
 
 def main():
   props = [json.loads(l) for l in open(os.path.join(VERIF, "properties.jsonl"))]
